@@ -135,7 +135,7 @@ def race(ctx):
     def run():
         binp = os.path.join(ctx.bdir, "vrace")
         env = dict(GOENV, CGO_ENABLED="1")
-        rc, out = sh(["go", "build", "-race", "-tags", "verif", "-o", binp, "./cmd/vrace"], cwd=HARNESS, env=env, timeout=1200)
+        rc, out = sh(["go", "build"] + stages.modfile_args(ctx) + ["-race", "-tags", "verif", "-o", binp, "./cmd/vrace"], cwd=HARNESS, env=env, timeout=1200)
         if rc != 0:
             return {"ok": False, "broken": "race harness build failed", "detail": out[-3000:], "disagreements": []}
         rc, out = sh([binp], env=env, timeout=1200)
